@@ -861,3 +861,187 @@ func init() {
 			return obs
 		}})
 }
+
+// TIME.unit-scale — C15 ("durations … add consistently"; duration-s, duration-ms and
+// duration-ns are three readings of one nanosecond count): a dimensional check.
+// Every expression built from the duration by /, %, *, +, - with constants and the
+// float accessors has a SCALE (how many result units one nanosecond contributes).
+// The terms of a sum must agree on it, and the value handed back by duration-<unit>
+// must have the scale of <unit>.  `float64(d/ms) + float64(d%ms)/1e9` adds
+// milliseconds to seconds.
+func init() {
+	register(&Rule{ID: "TIME.unit-scale", Floor: 2,
+		Doc: "in every registered duration-<unit> accessor of libtime (duration-s, duration-ms, duration-ns, …) the value returned is, by dimensional analysis of the expression over the duration's nanosecond count — x/C divides the scale by C, x*C multiplies it, x%C keeps it, conversions keep it, Seconds()/Minutes()/Hours() have theirs, and the terms of a sum or difference must agree — a quantity of exactly <unit>'s scale: a whole part and a remainder are never added in different units",
+		Run: func(c *Ctx) []Obligation {
+			const rid = "TIME.unit-scale"
+			units := map[string]float64{"ns": 1, "us": 1e3, "ms": 1e6, "s": 1e9, "m": 6e10, "h": 3.6e12}
+			var obs []Obligation
+			for _, e := range c.Registry() {
+				if rel(e.Pkg.PkgPath) != "lisp/lisplib/libtime" || !strings.HasPrefix(e.Name, "duration-") {
+					continue
+				}
+				unit, ok := units[strings.TrimPrefix(e.Name, "duration-")]
+				if !ok {
+					continue
+				}
+				body, u, _, ok := c.BodyOf(e)
+				if !ok || u.Decl == nil {
+					continue
+				}
+				info := u.Pkg.TypesInfo
+				isDur := func(t types.Type) bool { return strings.HasSuffix(types.Unalias(t).String(), "time.Duration") }
+				same := func(a, b float64) bool {
+					if a == b {
+						return true
+					}
+					d := a - b
+					if d < 0 {
+						d = -d
+					}
+					m := a
+					if m < 0 {
+						m = -m
+					}
+					return d <= 1e-9*m
+				}
+				// scale: (value, kind) with kind 0 unknown, 1 scaled quantity, 2 constant, 3 inconsistent
+				var scale func(x ast.Expr, depth int) (float64, int, string)
+				scale = func(x ast.Expr, depth int) (float64, int, string) {
+					x = ast.Unparen(x)
+					if depth > 8 {
+						return 0, 0, ""
+					}
+					if tv, ok := info.Types[x]; ok && tv.Value != nil {
+						if f, ok := constantFloat(tv.Value); ok {
+							v, _ := f.Float64()
+							return v, 2, ""
+						}
+					}
+					switch y := x.(type) {
+					case *ast.Ident:
+						o := info.Uses[y]
+						if o == nil {
+							return 0, 0, ""
+						}
+						if d := soleDef(info, body, y); d != nil {
+							if ta, ok := ast.Unparen(d).(*ast.TypeAssertExpr); ok && ta.Type != nil {
+								if tv, ok := info.Types[ta.Type]; ok && isDur(tv.Type) {
+									return 1, 1, ""
+								}
+							}
+							return scale(d, depth+1)
+						}
+						// `d, ok := lt.Native.(time.Duration)`
+						found := false
+						ast.Inspect(body, func(n ast.Node) bool {
+							if as, ok := n.(*ast.AssignStmt); ok && len(as.Lhs) == 2 && len(as.Rhs) == 1 && identObj(info, as.Lhs[0]) == o {
+								if ta, ok := ast.Unparen(as.Rhs[0]).(*ast.TypeAssertExpr); ok && ta.Type != nil {
+									if tv, ok := info.Types[ta.Type]; ok && isDur(tv.Type) {
+										found = true
+									}
+								}
+							}
+							return true
+						})
+						if found {
+							return 1, 1, ""
+						}
+						return 0, 0, ""
+					case *ast.CallExpr:
+						if tv, ok := info.Types[y.Fun]; ok && tv.IsType() && len(y.Args) == 1 {
+							return scale(y.Args[0], depth+1)
+						}
+						if se, ok := ast.Unparen(y.Fun).(*ast.SelectorExpr); ok && len(y.Args) == 0 {
+							if f := Callee(info, y); f != nil && f.Pkg() != nil && f.Pkg().Path() == "time" {
+								if rv, rk, why := scale(se.X, depth+1); rk == 1 {
+									switch f.Name() {
+									case "Nanoseconds":
+										return rv, 1, ""
+									case "Microseconds":
+										return rv / 1e3, 1, ""
+									case "Milliseconds":
+										return rv / 1e6, 1, ""
+									case "Seconds":
+										return rv / 1e9, 1, ""
+									case "Minutes":
+										return rv / 6e10, 1, ""
+									case "Hours":
+										return rv / 3.6e12, 1, ""
+									}
+								} else if rk == 3 {
+									return 0, 3, why
+								}
+							}
+						}
+						return 0, 0, ""
+					case *ast.BinaryExpr:
+						lv, lk, lw := scale(y.X, depth+1)
+						rv, rk, rw := scale(y.Y, depth+1)
+						if lk == 3 {
+							return 0, 3, lw
+						}
+						if rk == 3 {
+							return 0, 3, rw
+						}
+						switch y.Op {
+						case token.QUO:
+							if lk == 1 && rk == 2 && rv != 0 {
+								return lv / rv, 1, ""
+							}
+						case token.REM:
+							if lk == 1 && rk == 2 {
+								return lv, 1, ""
+							}
+						case token.MUL:
+							if lk == 1 && rk == 2 {
+								return lv * rv, 1, ""
+							}
+							if lk == 2 && rk == 1 {
+								return lv * rv, 1, ""
+							}
+						case token.ADD, token.SUB:
+							if lk == 1 && rk == 1 {
+								if same(lv, rv) {
+									return lv, 1, ""
+								}
+								return 0, 3, fmt.Sprintf("`%s` adds a quantity of %g units per nanosecond to one of %g", types.ExprString(y), lv, rv)
+							}
+						}
+						if lk == 2 && rk == 2 {
+							return 0, 0, ""
+						}
+						return 0, 0, ""
+					}
+					return 0, 0, ""
+				}
+				ord := &ordinal{}
+				for _, rs := range returnsOf(body) {
+					if len(rs.Results) != 1 || c.isErrorValueCall(info, rs.Results[0], 0) {
+						continue
+					}
+					ce, ok := ast.Unparen(rs.Results[0]).(*ast.CallExpr)
+					if !ok || len(ce.Args) != 1 {
+						continue
+					}
+					f := originOf(Callee(info, ce))
+					if f == nil || (FuncName(f) != "lisp.Float" && FuncName(f) != "lisp.Int") {
+						continue
+					}
+					construct := ord.next(e.Name + " result")
+					v, k, why := scale(ce.Args[0], 0)
+					switch {
+					case k == 3:
+						obs = append(obs, mkOb(c, rid, u, construct, rs, Violated, why+": the whole part and the remainder of the duration are in different units, so "+e.Name+" disagrees with its siblings for every duration that is not a whole number of the unit", true))
+					case k == 1 && same(v, 1/unit):
+						obs = append(obs, mkOb(c, rid, u, construct, rs, Proved, fmt.Sprintf("the returned expression has scale %g per nanosecond = 1/%g", v, unit), true))
+					case k == 1:
+						obs = append(obs, mkOb(c, rid, u, construct, rs, Violated, fmt.Sprintf("%s returns a quantity of %g units per nanosecond where the unit demands %g", e.Name, v, 1/unit), true))
+					default:
+						// an expression outside the little algebra (a rounding helper, a lookup): no unit can be read off it and none is claimed; the floor keeps the rule from going vacuous
+						_ = construct
+					}
+				}
+			}
+			return obs
+		}})
+}
